@@ -67,6 +67,8 @@ type synthState struct {
 	wo          map[string]*woResult
 	accShapes   map[*ssa.Function]*accShape
 	accCalls    map[ssa.Value]*ssa.Call
+	uniform     map[*ssa.Parameter]ssa.Value
+	uniformDone map[*ssa.Parameter]bool
 	pureExpr    map[*ssa.Function]ssa.Value
 	immField    map[*types.Var]bool
 	immWritten  map[*types.Var]bool
@@ -2199,4 +2201,76 @@ func (w *World) lookupOfRangedKey(v ssa.Value) bool {
 		return false
 	}
 	return w.mapNeverHoldsNil(f1)
+}
+
+// uniformArgOf: parameter p of an unexported module function with several static call sites
+// (no other use of the function) receives the very same SSA value at every one of them (a
+// context object handed from helper to helper): that value. nil otherwise.
+func (w *World) uniformArgOf(p *ssa.Parameter) ssa.Value {
+	s := w.ss()
+	if s.uniform == nil {
+		s.uniform = map[*ssa.Parameter]ssa.Value{}
+		s.uniformDone = map[*ssa.Parameter]bool{}
+	}
+	if s.uniformDone[p] {
+		return s.uniform[p]
+	}
+	s.uniformDone[p] = true
+	fn := p.Parent()
+	if fn == nil || !w.IsMod[fn] || fn.Parent() != nil || fn.Synthetic != "" || len(fn.Blocks) == 0 {
+		return nil
+	}
+	if obj := fn.Object(); obj == nil || obj.Exported() {
+		return nil
+	}
+	if w.fnUsedAsValue()[fn] {
+		return nil
+	}
+	node := w.CG.Nodes[fn]
+	if node == nil || len(node.In) < 2 {
+		return nil
+	}
+	idx := paramIndex(p)
+	var first ssa.Value
+	for _, e := range node.In {
+		if e.Site == nil || e.Site.Common().StaticCallee() != fn || e.Caller.Func == fn || !w.IsMod[e.Caller.Func] || e.Caller.Func.Synthetic != "" {
+			return nil
+		}
+		if _, isCall := e.Site.(*ssa.Call); !isCall {
+			return nil
+		}
+		args := e.Site.Common().Args
+		if idx < 0 || idx >= len(args) {
+			return nil
+		}
+		a := args[idx]
+		// strip local copies, not parameters (no recursion into other bindings here)
+		for i := 0; i < 4; i++ {
+			u, ok := a.(*ssa.UnOp)
+			if !ok || u.Op != token.MUL {
+				break
+			}
+			al, isAl := u.X.(*ssa.Alloc)
+			if !isAl {
+				break
+			}
+			ss := w.stores[w.locKey(al)]
+			if len(ss) != 1 {
+				break
+			}
+			a = ss[0].Val
+		}
+		switch a.(type) {
+		case *ssa.Parameter, *ssa.Alloc, *ssa.Global, *ssa.Function, *ssa.Const, *ssa.Call, *ssa.Extract, *ssa.MakeClosure, *ssa.FreeVar:
+		default:
+			return nil
+		}
+		if first == nil {
+			first = a
+		} else if first != a {
+			return nil
+		}
+	}
+	s.uniform[p] = first
+	return first
 }
